@@ -207,6 +207,13 @@ var Epoch0 = time.Date(2024, 1, 1, 0, 0, 0, 0, time.UTC)
 // ---------------------------------------------------------------------------------------
 // Run
 
+var generation atomic.Uint64
+
+// Generation identifies the current scenario run of this process; NewGeneration starts the next
+// one. Simulated process-level state (sync.Pool free lists) is reset when it changes.
+func Generation() uint64 { return generation.Load() }
+func NewGeneration()     { generation.Add(1) }
+
 func Run(t *Tape, cfg Config, main func()) *Info {
 	if active.Load() != nil {
 		panic("dsim: nested Run")
